@@ -610,6 +610,67 @@ pub fn prop(c: &Case, log: &mut CaseLog) -> Verdict {
     Verdict::Pass
 }
 
+/// Tests in an imported file: every test is one test, whatever names it can be reached by. Verdicts and exit status by
+/// construction (an assertion on an immediate value).
+pub fn prop_imported(entropy: &Vec<u32>, log: &mut CaseLog) -> Verdict {
+    let mut e = Ent::new(entropy);
+    let import = *e.pick(&[".import * from \"lib.asm\"", ".import * as libq from \"lib.asm\"", ".import doubleq from \"lib.asm\"", ".import doubleq as dq from \"lib.asm\""]);
+    let callee = if import.contains(" as dq") {
+        "dq"
+    } else if import.contains("as libq") {
+        "libq.doubleq"
+    } else {
+        "doubleq"
+    };
+    let lib_ok = e.chance(2, 3);
+    let main_ok = e.chance(2, 3);
+    let n_lib = 1 + e.below(2);
+    let mut lib = String::from("doubleq: {\n    asl\n    rts\n}\n");
+    for i in 0..n_lib {
+        let want = if lib_ok || i > 0 { 4 } else { 5 };
+        lib.push_str(&format!(".test \"lib_test{}\" {{\n    lda #2\n    jsr doubleq\n    .assert cpu.a == {}\n    brk\n}}\n", i, want));
+    }
+    let before = e.chance(1, 2);
+    let test = format!(".test \"main_test\" {{\n    lda #3\n    jsr {}\n    .assert cpu.a == {}\n    brk\n}}\n", callee, if main_ok { 6 } else { 7 });
+    let main = if before { format!("{}\n{}", import, test) } else { format!("{}{}\n", test, import) };
+    let mut files = BTreeMap::new();
+    files.insert("main.asm".to_string(), main);
+    files.insert("lib.asm".to_string(), lib);
+    let proj = crate::sut::core::Project { files, entry: "main.asm".into() };
+    let sc = Scratch::new("c18");
+    sc.write_project(&proj, "[build]\nentry = \"main.asm\"\n");
+    let run = run_mos(&sc.dir, &["--no-color", "-e", "Short", "test"]);
+    if run.timed_out {
+        return Verdict::Discard("mos killed by the watchdog".into());
+    }
+    log.label("imported-tests");
+    log.nontrivial = true;
+    let text = proj.files.iter().map(|(n, t)| format!("--- {} ---\n{}", n, t)).collect::<Vec<_>>().join("");
+    let detail = |what: &str| format!("{}\n{}\nexit {:?}\nstdout:\n{}\nstderr:\n{}", what, text, run.code, run.stdout, run.stderr);
+    let mut got: Vec<(String, bool)> = vec![];
+    for l in run.stderr.lines().chain(run.stdout.lines()) {
+        if let Some(rest) = l.trim().strip_prefix("test '") {
+            if let Some((name, tail)) = rest.split_once("' ... ") {
+                got.push((name.to_string(), tail.starts_with("ok")));
+            }
+        }
+    }
+    let any_fail = !lib_ok || !main_ok;
+    if (run.code == Some(1)) != any_fail || run.code.map(|c| c > 1).unwrap_or(true) {
+        return Verdict::fail("exit-status-wrong|imported-tests", detail(&format!("{} test(s) are expected to fail: the exit status must be non-zero iff a test failed", any_fail as u8)));
+    }
+    if got.len() != n_lib + 1 {
+        return Verdict::fail("test-not-reported|imported-tests", detail(&format!("{} tests exist, {} verdict lines", n_lib + 1, got.len())));
+    }
+    for (name, ok) in &got {
+        let want = if name.ends_with("main_test") { main_ok } else if name.ends_with("lib_test0") { lib_ok } else { true };
+        if *ok != want {
+            return Verdict::fail("verdict-wrong|imported-tests", detail(&format!("test {}", name)));
+        }
+    }
+    Verdict::Pass
+}
+
 pub fn to_json(c: &Case) -> serde_json::Value {
     let b = base_program(c);
     let (prog, kinds) = with_assertions(c, &b);
@@ -626,7 +687,7 @@ pub fn self_test() -> Result<(), String> {
 }
 
 pub fn run_check(ctx: &mut Ctx) {
-    ctx.rule = "projects with 1-3 `.test` blocks over the modelled instruction subset: straight-line code, counted loops on x/y (nested), forward conditional skips, subroutines (call depth <= 2), brace scopes, balanced pha/pla, zero-page/absolute/indexed/indirect scratch memory, optionally two banks; 0-3 assertions per test placed in front of visited instructions (loops and callees included) chosen from the reference trace to be true, false, unevaluable (undefined symbol), about flags, `*`, cpu.sp, constants, ram()/ram16() incl. another bank's memory; with and without custom message. oracle: independent 6502 interpreter (self-tested against emulator_6502) running the model's image of the test's bank and evaluating every assertion at every visit; compared with `mos test`: verdict line per test, exit status, located failure message. non-trivial = an assertion that is not simply true, or several tests".into();
+    ctx.rule = "projects with 1-3 `.test` blocks over the modelled instruction subset: straight-line code, counted loops on x/y (nested), forward conditional skips, subroutines (call depth <= 2), brace scopes, balanced pha/pla, zero-page/absolute/indexed/indirect scratch memory, optionally two banks; 0-3 assertions per test placed in front of visited instructions (loops and callees included) chosen from the reference trace to be true, false, unevaluable (undefined symbol), about flags, `*`, cpu.sp, constants, ram()/ram16() incl. another bank's memory; with and without custom message. oracle: independent 6502 interpreter (self-tested against emulator_6502) running the model's image of the test's bank and evaluating every assertion at every visit; compared with `mos test`: verdict line per test, exit status, located failure message. A second campaign puts tests in an imported file (`*`, `* as`, selected names) with verdicts fixed by construction: one verdict line per test, exit status non-zero iff one fails. non-trivial = an assertion that is not simply true, or several tests".into();
     if let Err(e) = self_test() {
         ctx.health(false, format!("reference cpu self test: {}", e));
         return;
@@ -639,6 +700,15 @@ pub fn run_check(ctx: &mut Ctx) {
     // (assertions whose verdict depends on a later visit are part of the domain since the fix of that finding)
     ctx.campaign_parallel("all", n, 16, || strategy(true), prop, to_json);
     let total = ctx.evaluations.max(1);
+    let n2 = ctx.tier.pick(320, 4000);
+    ctx.campaign_parallel(
+        "imported-tests",
+        n2,
+        16,
+        || proptest::collection::vec(any::<u32>(), 6..12),
+        prop_imported,
+        |en| json!({"imported_entropy": en}),
+    );
     let f = ctx.label_count("expect:some-test-fails");
     ctx.health(f * 100 / total >= 15, format!("cases with a failing test: {}%", f * 100 / total));
     let r = ctx.label_count("revisited-code");
@@ -648,6 +718,13 @@ pub fn run_check(ctx: &mut Ctx) {
 }
 
 pub fn replay(ctx: &mut Ctx, case: &serde_json::Value) {
+    if let Some(en) = case.get("imported_entropy") {
+        match serde_json::from_value::<Vec<u32>>(en.clone()) {
+            Ok(en) => ctx.replay_one(&en, prop_imported, case.clone()),
+            Err(e) => ctx.health(false, format!("replay case does not deserialize: {}", e)),
+        }
+        return;
+    }
     let c: Case = match serde_json::from_value(json!({"entropy": case["entropy"], "revisit_failures": case["revisit_failures"]})) {
         Ok(c) => c,
         Err(e) => {
